@@ -426,4 +426,41 @@ def r5_construction(a, tier):
     return rep
 
 
-RULES = [r1_child_discovery, r2_traversals, r3_attribute_names, r4_declared_bases, r5_construction]
+def r6_dispatch_namespace(a, tier):
+    rep = RuleReport(
+        'C07.R6',
+        'the walker dispatch namespace: _find_walker resolves a node to the method walk_<ClassName> / walk__<snake_name> / walk_<snake_name> of '
+        'the walker, so every method the FRAMEWORK classes of tatsu/walkers.py define under that prefix captures the user\'s model classes of '
+        'that name before walk_default or a base-class handler is considered. The only such method is the generic child traversal '
+        '(walk_children, which treats its argument as a node); any other framework method under the prefix (a helper for mappings, '
+        'collections ...) makes the walkers fail on, or skip, the subtree of every node whose class happens to have that name',
+        floor=1,
+    )
+    mod = a.p.modules.get('tatsu.walkers')
+    if mod is None:
+        raise AnalysisError('tatsu.walkers not found')
+    fw = a.p.func('tatsu.walkers.NodeWalker._find_walker')
+    prefixes = sorted({x.value for x in ast.walk(fw.node) if isinstance(x, ast.Constant) and isinstance(x.value, str) and x.value.rstrip('_').lstrip('_') == 'walk'
+                       and x.value.endswith('_')}) or ['walk_']
+    generic = {'children'}   # walk_children(node): traverses node.children() - correct for a class named Children too
+    fallbacks = {'default', '_default'}  # the documented fallbacks, looked up explicitly after the class search
+    for c in [c for c in a.p.classes.values() if c.module is mod]:
+        names = set(c.methods) | {n for n, v in c.assigns.items() if isinstance(v, ast.Name) and v.id in c.methods}
+        for n in sorted(names):
+            for pre in ('_walk_', 'walk_'):
+                if n.startswith(pre) and n not in ('walk',):
+                    rest = n[len(pre):]
+                    captured = pre == 'walk_'  # only the public prefix is searched by default
+                    ok = (rest.lstrip('_') in generic) or (rest in fallbacks) or not captured
+                    rep.add({'class': c.qualname.split('.')[-1], 'method': n, 'captures_model_classes_named': rest if captured else None, 'generic_traversal_or_fallback': ok})
+                    if not ok:
+                        m = c.methods.get(n)
+                        rep.fail(c.qualname + '.' + n, f'dispatch-capture:{n}', f'{c.qualname.split(".")[-1]}.{n} lies in the dispatch namespace: a model class named '
+                                 f'{rest!r} (in any capitalisation the name mangling maps to it) is walked by this method instead of the user\'s handler or walk_default',
+                                 m.loc if m else c.loc)
+                    break
+    rep.notes.append(f'dispatch prefixes read from _find_walker: {prefixes}')
+    return rep
+
+
+RULES = [r1_child_discovery, r2_traversals, r3_attribute_names, r4_declared_bases, r5_construction, r6_dispatch_namespace]
